@@ -20,7 +20,8 @@ def main():
 
     api = wc = None
     out = sys.stdout
-    dtypes = {"int16": np.int16, "int8": np.int8, "uint8": np.uint8, "int64": np.int64, "int32": np.int32}
+    dtypes = {"int16": np.int16, "int8": np.int8, "uint8": np.uint8, "int64": np.int64, "int32": np.int32,
+              "uint16": np.uint16, "uint32": np.uint32, "uint64": np.uint64, "object": object}
 
     def volume(job):
         """the OHWI ndarray handed to the entry point; `layout` chooses how it lies in memory"""
@@ -43,7 +44,10 @@ def main():
         try:
             op = job["op"]
             if op == "encode":
-                enc = mlw_codec.encode(job["seq"])
+                seq = job["seq"]
+                if job.get("seq_dtype"):       # the sequence handed over as an ndarray of that type instead of a list
+                    seq = np.array(seq, dtype=dtypes[job["seq_dtype"]])
+                enc = mlw_codec.encode(seq)
                 res["enc"] = bytes(enc).hex()
                 if job.get("decode", True):
                     res["dec"] = mlw_codec.decode(enc)
